@@ -631,6 +631,12 @@ func (m *OrderedMap) Set(comparator ValueComparator, hip HashInputProvider, key 
 		return nil, err
 	}
 
+	// If value is the container that is already inlined under key, nothing was overwritten:
+	// the existing element and the new element are the same inlined slab, so it must stay inlined.
+	if isInlinedSlabOfValue(storable, value) {
+		return storable, nil
+	}
+
 	// If overwritten storable is an inlined slab, uninline the slab and store it in storage.
 	// This is to prevent potential data loss because the overwritten inlined slab was not in
 	// storage and any future changes to it would have been lost.
